@@ -49,7 +49,7 @@ type serverSpec struct {
 }
 
 func checkC09(p *ana.Prog, r *ana.Result) {
-	r.Explain("C09 (structural necessary conditions): in runIPServer and in the NTP arm of runSCIONServer every path from the datagram read to the NTP reply write passes ntp.DecodePacket==nil and ntp.ValidateRequest==nil, and either `len(payload) <= 48` or all six NTS tests (nts.DecodePacket, FirstCookie, cookie Decode, provider.Get ok, Decrypt, ProcessRequest); no path executes two reply writes for one read; the reply goes to the address returned by this read and is the buffer ntp.EncodePacket filled from the packet handleRequest built. ValidateRequest is decided exactly on all 256 first bytes (truth table) against the stated set; the reply's first byte after SetVersion/SetMode is computed for all 256 prior values and is disjoint from the accepted request set (anti-reflection); ntp.DecodePacket rejects len<48 on every path.")
+	r.Explain("C09 (structural necessary conditions): in runIPServer and in the NTP arm of runSCIONServer every path from the datagram read to the NTP reply write passes ntp.DecodePacket==nil and ntp.ValidateRequest==nil, and either `len(payload) <= 48` or all six NTS tests (nts.DecodePacket, FirstCookie, cookie Decode, provider.Get ok, Decrypt, ProcessRequest); no path executes two reply writes for one read; the reply goes to the address returned by this read (over SCION: SrcIA/DstIA, address types, raw addresses and UDP ports exchanged and the path reversed before the write to the previous hop) and is the buffer ntp.EncodePacket filled from the packet handleRequest built. ValidateRequest is decided exactly on all 256 first bytes (truth table) against the stated set; the reply's first byte after SetVersion/SetMode is computed for all 256 prior values and is disjoint from the accepted request set (anti-reflection); ntp.DecodePacket rejects len<48 on every path.")
 	r.Undecided("kernel delivery; NTS cryptographic validity (C10); values inside the reply other than LVM/stratum (C06)")
 	c09Server(p, r, "runIPServer", false)
 	c09Server(p, r, "runSCIONServer", true)
@@ -104,6 +104,20 @@ func c09Server(p *ana.Prog, r *ana.Result, name string, scion bool) {
 			}
 		}
 		return false
+	}
+	if scion {
+		// the reply goes back to the sender: addresses exchanged, path reversed (rule shared with C13)
+		n0 := len(r.Obls)
+		c13Swaps(p, r, fn, rd, ntpWrites[0])
+		kept := r.Obls[:n0]
+		for _, o := range r.Obls[n0:] {
+			if o.Rule == "C13.swap" && strings.Contains(o.Key, "ntp-reply") {
+				o.Rule = "C09.swap"
+				o.Key = strings.Replace(o.Key, "C13.swap", "C09.swap", 1)
+				kept = append(kept, o)
+			}
+		}
+		r.Obls = kept
 	}
 	isAnyWrite := func(in ssa.Instruction) bool {
 		c, ok := in.(ssa.CallInstruction)
